@@ -586,6 +586,62 @@ def run(chk):
                    "every throwing call precedes the first change of the grid")
     chk.floor("C14-D8.late", nlate, 3, "throwing calls in grid-class mutators that also change the grid")
 
+    # ------------------------------------------------------------------ D11 nested-only machinery behind Global grids
+    chk.rule("C14-D11.nested", "GridGlobal / DynamicConstructorDataGlobal routines that build point sets with generateNestedPoints outside an isNonNested() alternative are reachable from the API "
+                               "only behind a rejection of non-nested rules: directly (isNonNested / isSequence test that throws), or through the construction flag, which is raised only "
+                               "behind such a test (restored files and copies carry the flag of a grid that passed it)")
+    NCL = ("TasGrid::GridGlobal", "TasGrid::DynamicConstructorDataGlobal")
+    ncand = [f for f in allf if f.cls in NCL and not f.d.get("islambda")]
+    nested = {}
+    for f in ncand:
+        for c in f.calls():
+            if (callee(c) or "").endswith("::generateNestedPoints") and is_reachable(f, c):
+                alt = any("isNonNested" in txt(a.get("cond") or (a["c"][0] if a.get("k") == "ConditionalOperator" and a.get("c") else {}) or {}) for a in f.ancestors(c) if a.get("k") in ("IfStmt", "ConditionalOperator"))
+                if not alt:
+                    nested[(f.key, f.sig)] = "calls generateNestedPoints"
+    grew = True
+    while grew:
+        grew = False
+        for f in ncand:
+            k = (f.key, f.sig)
+            if k in nested:
+                continue
+            for c in f.calls():
+                if is_reachable(f, c) and any((t.key, t.sig) in nested and t.cls in NCL for t in P2.targets(f, c)):
+                    nested[k] = "reaches nested-only code"
+                    grew = True
+                    break
+    if len(nested) < 4:
+        raise AnalysisBroken("nested-only routines of the Global construction machinery not found: re-derive C14-D11")
+
+    def nested_guard(edges):
+        return any(("isNonNested" in t and not tr) or ("isSequence(" in t and tr) for t, tr in edges)
+    flag_sites = []
+    for f in fns + [r for r in readers if r not in fns]:
+        for q in f.walk():
+            if q.get("k") == "BinaryOperator" and q.get("op") == "=" and short((strip(q["c"][0]) or {}).get("field") or "") == "using_dynamic_construction" and txt(strip(q["c"][1])) == "true":
+                flag_sites.append((f, q))
+    flag_ok = bool(flag_sites) and all(nested_guard([(txt(strip(e)), tr) for e, tr in cond_edges_dominating(f, q)]) for f, q in flag_sites)
+    nnest = 0
+    for f in fns:
+        last = short(f.name)
+        if f.d.get("const") or last.startswith(("read", "copy")) or last in ("operator=",):
+            continue
+        for c in f.calls(into_lambda=False):
+            ts = [t for t in P2.targets(f, c) if t.cls == "TasGrid::GridGlobal" and (t.key, t.sig) in nested]
+            if not ts:
+                continue
+            nnest += 1
+            chk.saw(f)
+            edges = [(txt(strip(e)), tr) for e, tr in cond_edges_dominating(f, c)]
+            direct = nested_guard(edges)
+            byflag = any((t == "using_dynamic_construction" and tr) or (t == "!using_dynamic_construction" and not tr) for t, tr in edges) and flag_ok
+            chk.ob("C14-D11.nested", f.key + f.sig, "%s reached only for nested rules" % short(ts[0].name), direct or byflag, f.loc(c),
+                   "guarded directly" if direct else "guarded by the construction flag, which is raised behind the test" if byflag else
+                   "a Global grid with a non-nested rule reaches code that treats its tensors as nested (inconsistent points, heap corruption in later calls)")
+    chk.floor("C14-D11.nested", nnest, 4, "API calls into nested-only Global routines")
+
+
     # ------------------------------------------------------------------ D7 null arguments
     chk.rule("C14-D7.null", "a literal null pointer (including a defaulted = nullptr argument) handed to a library function is never dereferenced there: every dereferencing use of the parameter "
                             "(subscript, *, ->, C-string consumers such as ifstream::open / std::string) is dominated by a null test of that parameter, lies in a branch that is dead for the "
